@@ -974,7 +974,10 @@ class OmniParser(PVLParser):
         all whitespace characters that begin the next line will
         be removed.
         """
-        nodash = re.sub(r"-[\n\r\f]\s*", "", s)
+        # White space is what the grammar says it is: a character that
+        # the grammar forbids is left for the lexer to find.
+        ws = re.escape("".join(self.grammar.whitespace))
+        nodash = re.sub(rf"-[\n\r\f][{ws}]*", "", s)
         self.doc = nodash
         self._equals_pos = 0
         self._value_token = None
